@@ -40,7 +40,7 @@ def exhaustive(name, kind="c", maxfuncs=1, maxbody=5, maxdepth=2, withviol=False
     return [r], r.exports
 
 
-def render(rec, seed=0, name=None, prog_key="prog", speller=None):
+def render(rec, seed=0, name=None, prog_key="prog", speller=None, salt_by="content"):
     """abstract program -> (file name, text, line map: abstract line index -> first text line)"""
     import hashlib
     sp = speller or Speller(seed)
@@ -57,10 +57,13 @@ def render(rec, seed=0, name=None, prog_key="prog", speller=None):
     nline = 1
     for idx, ln in enumerate(prog):
         linemap.append(nline)
-        key = hashlib.sha1(json.dumps(ln, sort_keys=True).encode()).hexdigest()
-        occ = seen.get(key, 0)
-        seen[key] = occ + 1
-        salt = f"{key}:{occ}"
+        if salt_by == "index":
+            salt = f"line{idx}"
+        else:
+            key = hashlib.sha1(json.dumps(ln, sort_keys=True).encode()).hexdigest()
+            occ = seen.get(key, 0)
+            seen[key] = occ + 1
+            salt = f"{key}:{occ}"
         if ln["k"] == "header42":
             t = corpus.header42(name)
         elif ln["k"] == "empty":
